@@ -19,6 +19,7 @@ RULE = ("requests `mul|cmul <form> <lhs> <rhs>` under each of the 8 thread round
         "tie, or result within 2 of 2^127, or operand equal to zero/one in non-normalised form")
 BUILDS = {"quick": [("dev", ()), ("release", ())],
           "thorough": [("dev", ()), ("release", ()), ("release", ("packed",)), ("o0-nochk", ())]}
+ASSUMPTIONS = [C.GRID_NOTE]
 REQUIRED_SITES = {"mulr.exact": 100, "mulr.narrow": 100, "mulr.wide": 100, "i256.neg": 20,
                   "i256.exact_neg": 20, "round_quot.tie": 50, "round_quot.overflow": 2, "i256.none": 5}
 BUDGET = {"quick": 25, "thorough": 300}
@@ -188,6 +189,9 @@ def gen(rng, tier, shard, batch):
     for mode in MODES:
         reqs.append("mode " + mode)
         reqs += mine
+        if batch == 0:
+            for a, p, b, q in C.small_grid(tier, shard, E.NCPU):
+                reqs.append("mul vv %s %s" % (G.fD(a, p), G.fD(b, q)))
         for _ in range(N_RANDOM[tier]):
             op = rng.choice(("mul", "mul", "cmul"))
             k = rng.random()
